@@ -18,6 +18,7 @@ def gen_C01(ctx):
     out += st_tokens(ctx, ["S"], 3 if ctx.tier == "quick" else 4, TOKENS_Q, prefix="pkg:t/")
     out += st_token_sample(ctx, ctx.n(4000, 300000), shapes, TOKENS_T, "c01-tok")
     out += st_long(ctx, shapes, "c01-long", every=ctx.tier == "thorough")
+    out += st_classes(ctx, shapes, "c01-cls")
     out += st_huge(ctx)
     return out
 
@@ -25,6 +26,7 @@ def gen_C01(ctx):
 def gen_C02(ctx):
     shapes = ["S", "M", "P"]
     out = st_spellings(ctx, ctx.n(15000, 1000000), shapes, "c02-spell", group=3)
+    out += st_classes(ctx, shapes, "c02-cls")
     return out
 
 
@@ -32,6 +34,7 @@ def gen_C03(ctx):
     out = st_conformance(["S", "P"])
     out += st_spellings(ctx, ctx.n(4000, 200000), ["S", "P"], "c03-spell", group=1)
     out += st_builder(ctx, ctx.n(8000, 400000), ["S", "P", "CB", "M"], "c03-build")
+    out += st_classes(ctx, ["S", "P"], "c03-cls") + st_classes_build(ctx, ["S", "P", "CB", "M"], "c03-clsb")
     out += st_scalars(["ns", "name", "version", "qvalue", "subpath"], step=1 if ctx.tier == "thorough" else 4099)
     if ctx.tier == "quick":
         out += st_scalars(["ns", "name", "version", "qvalue", "subpath"], limit=256)
@@ -48,6 +51,8 @@ def gen_C04(ctx):
     out += st_builder(ctx, ctx.n(8000, 400000), ["S", "P", "CB", "CO", "M"], "c04-build")
     out += st_shape(ctx, ctx.n(3000, 100000), "c04-shape")
     out += st_long(ctx, shapes, "c04-long", every=ctx.tier == "thorough")
+    out += st_classes(ctx, shapes, "c04-cls") + st_classes_build(ctx, ["S", "P", "CB", "CO", "M"], "c04-clsb")
+    out += st_cksum_texts(ctx, ("parse", "build"))
     return out
 
 
@@ -61,10 +66,15 @@ def gen_C06(ctx):
     out += st_cksum(ctx, ctx.n(3000, 300000), "c06-cksum")
     out += st_long(ctx, shapes, "c06-long", every=ctx.tier == "thorough") + st_long_api(ctx)
     out += st_huge(ctx)
+    out += st_classes(ctx, shapes, "c06-cls") + st_classes_build(ctx, ["S", "P", "CB", "CO", "M"], "c06-clsb")
     out += [case("build S %s %s ck:-" % (hx("t"), hx("n")), "empty-checksum"),
             case("cksum text", "empty-checksum"), case("cksum rt;iter;algs", "empty-checksum"),
             case("build P Cargo %s ck:-;ck:ins.%s.-" % (hx("n"), hx("a")), "empty-checksum")]
     # documented panics: must panic in model and implementation alike (correspondence), not violations
+    out += [case("quals inst:9:%s" % hx("v"), "documented-panic", documented_panic=True),
+            case("build S %s %s tq:9:%s" % (hx("t"), hx("n"), hx("v")), "documented-panic", documented_panic=True, shape="S"),
+            case("quals ins:%s:%s;gett:9;hast:9;rmt:9;iter" % (hx("a"), hx("1")), "typed-invalid-key"),
+            case("quals inst:7:%s;inst:8:%s;gett:7;gett:8;gett:5;iter;rmt:8;iter" % (hx("x86"), hx("u")), "typed-custom-key")]
     out += [case("quals idx:%s" % hx("zz"), "documented-panic", documented_panic=True),
             case("quals ins:%s:%s;idxmut:%s:%s" % (hx("a"), hx("1"), hx("b"), hx("2")), "documented-panic", documented_panic=True)]
     return out
@@ -75,6 +85,8 @@ def gen_C10(ctx):
     out = st_conformance(shapes)
     out += st_spellings(ctx, ctx.n(6000, 400000), shapes, "c10-spell", group=1)
     out += st_builder(ctx, ctx.n(9000, 500000), ["S", "P", "CB", "CO", "M"], "c10-build")
+    out += st_classes(ctx, shapes, "c10-cls") + st_classes_build(ctx, ["S", "P", "CB", "CO", "M"], "c10-clsb")
+    out += st_cksum_texts(ctx, ("parse", "build"))
     out += [c for c in st_scalars(["name", "pypi", "pypi2"], step=1 if ctx.tier == "thorough" else 977, shapes=("P",))]
     out += st_huge(ctx)
     return out
@@ -111,7 +123,7 @@ def gen_C13(ctx):
 def gen_C08(ctx):
     out = []
     base = st_conformance(["P"]) + st_spellings(ctx, ctx.n(5000, 400000), ["P"], "c08-spell", typed_known=True, group=1) \
-        + st_malformed(ctx, ctx.n(2000, 100000), ["P"], "c08-mal")
+        + st_malformed(ctx, ctx.n(2000, 100000), ["P"], "c08-mal") + st_classes(ctx, ["P"], "c08-cls")
     for c in base:
         g = dict(c)
         g["req"] = c["req"].replace("parse P ", "parse S ", 1)
@@ -161,6 +173,8 @@ def gen_C08(ctx):
 def gen_C09(ctx):
     out = st_builder(ctx, ctx.n(14000, 800000), ["S", "P"], "c09-build")
     out += [c for c in st_long_api(ctx) if c["req"].startswith("build ") and c.get("shape") in ("S", "P")]
+    out += st_classes_build(ctx, ["S", "P"], "c09-clsb")
+    out += st_cksum_texts(ctx, ("build",))
     fixed = [("P", "Maven", "n", "ns:" + hx("/")), ("S", hx("t"), "n", "q:%s:%s" % (hx("k"), hx("a&b"))),
              ("S", hx("t"), "n", "q:%s:%s" % (hx("k"), hx("a&l=c"))), ("P", "Maven", "n", "ns:" + hx("//")),
              ("S", hx("t"), "n", "ns:%s;sub:%s" % (hx("a//b/"), hx("/x/./y/../z/")))]
@@ -194,6 +208,7 @@ def gen_C05(ctx):
     out += st_token_sample(ctx, ctx.n(4000, 300000), shapes, TOKENS_T, "c05-tok")
     out += st_pieces_random(ctx, ctx.n(2000, 100000), shapes, "c05-pieces")
     out += st_long(ctx, shapes, "c05-long", every=ctx.tier == "thorough")
+    out += st_cksum_texts(ctx, ("parse",))
     return out
 
 
@@ -205,6 +220,7 @@ def gen_C07(ctx):
     out += st_spellings(ctx, ctx.n(4000, 300000), ["S", "P"], "c07-spell", group=1)
     out += st_malformed(ctx, ctx.n(4000, 300000), ["S", "P"], "c07-mal")
     out += st_long(ctx, ["S", "M", "P"], "c07-long", every=ctx.tier == "thorough")
+    out += st_classes(ctx, ["S", "M", "P"], "c07-cls")
     return out
 
 
@@ -242,6 +258,7 @@ def gen_C12(ctx):
     out += st_cksum_orders(ctx, ctx.n(2500, 150000), "c12-orders")
     out += st_cksum_purl(ctx, ctx.n(4000, 300000), "c12-purl")
     out += [c for c in st_long_api(ctx) if c["req"].startswith("cksum ")]
+    out += st_cksum_texts(ctx, ("parse", "api"))
     out += [case("cksum text", "empty"), case("cksum rt", "empty"), case("cksum ins:%s:-;text;rt;get:%s" % (hx("a"), hx("a")), "empty")]
     # all entry sets up to 3 from a small universe, all insertion orders
     import itertools
@@ -257,7 +274,7 @@ def gen_C12(ctx):
 
 
 def gen_C14(ctx):
-    return st_shape(ctx, ctx.n(12000, 500000), "c14-shape")
+    return st_shape(ctx, ctx.n(12000, 500000), "c14-shape") + st_cksum_texts(ctx, ("shape",))
 
 
 def gen_C15(ctx):
@@ -345,6 +362,7 @@ def gen_C17(ctx):
     out += st_cksum(ctx, ctx.n(1000, 100000), "c17-cksum")
     out += st_ptype_exhaustive()[:400]
     out += st_long(ctx, shapes, "c17-long", every=ctx.tier == "thorough") + st_long_api(ctx)
+    out += st_classes(ctx, shapes, "c17-cls") + st_classes_build(ctx, ["S", "P", "CB", "CO", "M"], "c17-clsb")
     return out
 
 
